@@ -70,8 +70,9 @@ def run_unit(uname, seed=None, rlimit=None):
     t0 = time.time()
     r = {'unit': uname}
     try:
-        unit, res = build_and_run(uname, canary=False, seed=seed, rlimit=rlimit)
-        cunit, cres = build_and_run(uname, canary=True, seed=seed, rlimit=rlimit)
+        sub = ('s%d' % seed) if seed is not None else ''
+        unit, res = build_and_run(uname, canary=False, seed=seed, rlimit=rlimit, subdir=sub)
+        cunit, cres = build_and_run(uname, canary=True, seed=seed, rlimit=rlimit, subdir=sub)
         r.update(unit=unit, res=res, cunit=cunit, cres=cres)
     except ExtractError as e:
         r['extract_error'] = str(e)
